@@ -38,7 +38,10 @@ Urgent(s) == IF s.cur >= 0 /\ s.cur \in Live(s) /\ Ph(s, s.cur) = "ready"
                 /\ \/ NextOp(s, s.cur).k \in Markers /\ CanComplete(s, s.cur)
                    \* the result is published and the task finishes in the step in which its closure / future returns
                    \* (thread-local destructors, which may contain scheduling points, come in between and are steps of their own)
-                   \/ NextOp(s, s.cur).k = "exit" /\ CanBlock(s, s.cur)
+                   \* - except that a thread whose exit would end the execution while detached tasks are still unfinished
+                   \*   passes a scheduling point first (thread_fn: exit_current_truncates_execution)
+                   \/ /\ NextOp(s, s.cur).k = "exit" /\ CanBlock(s, s.cur)
+                      /\ (s.fut[s.cur+1] \/ Attached(s) \ {s.cur} # {} \/ Live(s) \ {s.cur} = {})
              THEN {s.cur} ELSE {}
 Next ==
   /\ S.panicked = ""
